@@ -6,6 +6,7 @@
 (* Resolver mode (proxy::handle), per request read from the client:        *)
 (*   ReadReq      next NUL-terminated request (stdin EOF => stop)          *)
 (*   Route        service-info queries go to the configured resolver;      *)
+(*                the target address is cached per interface name           *)
 (*                otherwise resolve the interface (only when it changes)   *)
 (*   Connect      a fresh connection to the target for every request       *)
 (*   Forward      write the request to the target                          *)
@@ -27,7 +28,8 @@ CONSTANTS
   BugReadAheadToClient,  \* bytes read ahead of an upgrade are written back to the client
   BugDropReplyOnClose,   \* a reply that arrives together with the service's hang-up is dropped, exit 1
   BugPanicNoChild,       \* --connect: the child watcher unwraps a child that does not exist
-  BugAbortAfterUpgrade   \* the upgraded session ends with an abort (descriptor closed twice)
+  BugAbortAfterUpgrade,  \* the upgraded session ends with an abort (descriptor closed twice)
+  BugStaleCacheAfterInfo \* a service-info query redirects the target address but leaves the cached interface name alone
 
 (* request kinds the client sends; svc: which service owns the interface ("A", "B") or "R" for service-info queries *)
 Kinds == {"ok", "stream", "oneway", "error", "closing", "upgrade", "getinfo"}
@@ -53,16 +55,19 @@ VARIABLES
   pc,          \* "read" | "route" | "relay" | "raw" | "done"
   out,         \* replies forwarded to the client: [req, n] = n-th reply of request req
   got,         \* got[s]: requests service s received (indices)
+  lastIface,   \* resolver mode: the interface the cached target address was resolved for ("none" initially)
+  address,     \* resolver mode: the cached target address (named by the service behind it)
   rawToSvc,    \* payload atoms delivered to the upgraded service
   rawToClient, \* payload atoms (wrongly) written to the client
   exit         \* "running" | "ok" | "error" | "panic" | "abort"
 
-bvars == <<mode, reqs, payload, pipelined, i, pc, out, got, rawToSvc, rawToClient, exit>>
+bvars == <<mode, reqs, payload, pipelined, i, pc, out, got, lastIface, address, rawToSvc, rawToClient, exit>>
 
 Services == {"A", "B", "R"}
 
 BInit ==
   /\ i = 0 /\ pc = "read" /\ out = <<>> /\ got = [s \in Services |-> <<>>]
+  /\ lastIface = "none" /\ address = "none"
   /\ rawToSvc = 0 /\ rawToClient = 0 /\ exit = "running"
 
 Cur == reqs[i]
@@ -73,30 +78,39 @@ ReadReq ==
      THEN /\ i' = i + 1 /\ pc' = "route" /\ UNCHANGED exit
      ELSE \* the client closed its side: the bridge stops, reporting success
           /\ pc' = "done" /\ exit' = "ok" /\ UNCHANGED i
-  /\ UNCHANGED <<mode, reqs, payload, pipelined, out, got, rawToSvc, rawToClient>>
+  /\ UNCHANGED <<mode, reqs, payload, pipelined, out, got, lastIface, address, rawToSvc, rawToClient>>
 
-\* route + connect + forward in one step (each request on a fresh connection to its target)
+\* route + connect + forward in one step (each request on a fresh connection to its target).  The target address is
+\* cached: it is looked up again only when the interface differs from the one of the previous request (a service-info
+\* query counts as the resolver's interface).
 RouteForward ==
   /\ pc = "route"
   /\ IF Cur.k = "getinfo" /\ BugGetInfoHardcoded
      THEN \* nobody listens at the fixed address: InterfaceNotFound to the client, the bridge stops
           /\ out' = Append(out, [req |-> i, n |-> 0, bogus |-> TRUE])
           /\ pc' = "done" /\ exit' = "ok"
-          /\ UNCHANGED got
-     ELSE /\ got' = [got EXCEPT ![Cur.svc] = Append(@, i)]
+          /\ UNCHANGED <<got, lastIface, address>>
+     ELSE /\ IF BugStaleCacheAfterInfo /\ Cur.svc = "R"
+             THEN address' = "R" /\ UNCHANGED lastIface
+             ELSE IF Cur.svc # lastIface
+                  THEN address' = Cur.svc /\ lastIface' = Cur.svc
+                  ELSE UNCHANGED <<address, lastIface>>
+          /\ got' = [got EXCEPT ![address'] = Append(@, i)]
           /\ pc' = "relay" /\ UNCHANGED <<out, exit>>
   /\ UNCHANGED <<mode, reqs, payload, pipelined, i, rawToSvc, rawToClient>>
 
 Relay ==
   /\ pc = "relay"
   /\ LET rs == Replies(Cur)
-         fwd == IF ServiceCloses(Cur) /\ BugDropReplyOnClose THEN <<>> ELSE [n \in 1..Len(rs) |-> [req |-> i, n |-> n, bogus |-> FALSE]]
+         wrong == address # Cur.svc   \* the request went to a service that does not have the interface: InterfaceNotFound
+         fwd == IF wrong THEN IF Cur.k = "oneway" THEN <<>> ELSE <<[req |-> i, n |-> 0, bogus |-> TRUE]>>
+                ELSE IF ServiceCloses(Cur) /\ BugDropReplyOnClose THEN <<>> ELSE [n \in 1..Len(rs) |-> [req |-> i, n |-> n, bogus |-> FALSE]]
      IN /\ out' = out \o fwd
-        /\ IF ServiceCloses(Cur) /\ BugDropReplyOnClose
+        /\ IF ~wrong /\ ServiceCloses(Cur) /\ BugDropReplyOnClose
            THEN pc' = "done" /\ exit' = "error"
-           ELSE IF Cur.k = "upgrade" THEN pc' = "raw" /\ UNCHANGED exit
+           ELSE IF ~wrong /\ Cur.k = "upgrade" THEN pc' = "raw" /\ UNCHANGED exit
            ELSE pc' = "read" /\ UNCHANGED exit
-  /\ UNCHANGED <<mode, reqs, payload, pipelined, i, got, rawToSvc, rawToClient>>
+  /\ UNCHANGED <<mode, reqs, payload, pipelined, i, got, lastIface, address, rawToSvc, rawToClient>>
 
 \* upgraded: everything the client sends from now on belongs to the service, starting with what was read ahead
 Raw ==
@@ -106,7 +120,7 @@ Raw ==
      ELSE rawToSvc' = payload /\ rawToClient' = 0
   /\ pc' = "done"
   /\ exit' = IF BugAbortAfterUpgrade THEN "abort" ELSE "ok"
-  /\ UNCHANGED <<mode, reqs, payload, pipelined, i, out, got>>
+  /\ UNCHANGED <<mode, reqs, payload, pipelined, i, out, got, lastIface, address>>
 
 (* direct mode: a plain pipe to one service *)
 Direct ==
@@ -123,7 +137,7 @@ Direct ==
   /\ exit' = IF BugPanicNoChild THEN "panic" ELSE "ok"
   \* the payload only has somewhere to go if the connection survived up to the upgrade request
   /\ rawToSvc' = IF \E k \in 1..Len(reqs) : ServiceCloses(reqs[k]) THEN 0 ELSE payload
-  /\ UNCHANGED <<mode, reqs, payload, pipelined, rawToClient>>
+  /\ UNCHANGED <<mode, reqs, payload, pipelined, rawToClient, lastIface, address>>
 
 BNext == (mode = "resolver" /\ (ReadReq \/ RouteForward \/ Relay \/ Raw)) \/ Direct
 BSpec == BInit /\ [][BNext]_bvars
